@@ -13,6 +13,7 @@ PARAMS = 's0 s1 M0 M1 dx efl wavelength fpm_dx shift0 shift1'
 def generate(repo):
     g = Gen('C05', imports=['PrysmVerif.Num', 'PrysmVerif.Model.C05'], header=HEADER)
     pr, _ = load(repo, 'prysm/propagation.py')
+    ftm, _ = load(repo, 'prysm/fttools.py')
     emit_scalar(g, pr, 'Q_for_sampling', 'qForSampling', 'input_diameter prop_dist wavelength output_dx')
     emit_fixed(g, pr, 'focus_fixed_sampling', 'ffs', {'mdft': 'mdft.dft2', 'czt': 'czt.czt2'})
     emit_fixed(g, pr, 'unfocus_fixed_sampling', 'ufs', {'mdft': 'mdft.idft2', 'czt': 'czt.iczt2'})
@@ -291,6 +292,25 @@ def generate(repo):
            'def babinetAtLyot (self_data returned : K) : K := self_data - returned\n'
            'def babinetAfterLyot (lyot at_lyot : K) : K := lyot * at_lyot\n'
            'def babinetNoStop (lyot at_lyot : K) : K := at_lyot')
+
+
+    # ---- no in-place NumPy operation (augmented assignment, item assignment, `out=`, mutating method) on an object READ FROM
+    # AN EXECUTOR CACHE (`self.Eout[key]`, `self.Ein[key]`, `self.components[key]`) or on a view / alias of one, in any entry point
+    # that shares the caches with the fixed-sampling routes -- the *_backprop entry points included: such an operation changes
+    # what every LATER call with the same sampling key computes
+    def cache_fact(cls, meth):
+        def check():
+            try:
+                fn = get_def(ftm, f'{cls}.{meth}')
+            except Untranslatable:
+                return True               # the entry point does not exist (e.g. no chirp-Z backprop): nothing to corrupt
+            return no_inplace_on_args(fn, array_params=(), cache_reads=True)
+        return check
+    for cls, short, meths in (('MatrixDFTExecutor', 'mdft', ('dft2', 'idft2', 'dft2_backprop', 'idft2_backprop')),
+                              ('ChirpZTransformExecutor', 'czt', ('czt2', 'iczt2', 'czt2_backprop', 'iczt2_backprop'))):
+        for meth in meths:
+            nm = f'{short}{"".join(w.capitalize() for w in meth.split("_"))}NoInPlaceOnCache'
+            g.fact(nm, f'prysm/fttools.py:{cls}.{meth}', cache_fact(cls, meth))
 
     for nm, py in (('fpmNoInPlaceOnArguments', 'to_fpm_and_back'), ('fpmWrapNoInPlaceOnArguments', 'Wavefront.to_fpm_and_back'),
                    ('babinetNoInPlaceOnArguments', 'Wavefront.babinet'), ('ffsNoInPlaceOnArguments', 'focus_fixed_sampling'),
